@@ -114,7 +114,70 @@ def check(ctx):
     rep.count('calls_oop', kinds['oop'])
     _positive_control(rep, model)
     _call_ordering(ctx, rep)
+    _destructive_kernels(ctx, rep, model)
     return rep
+
+
+def _destructive_kernels(ctx, rep, model):
+    """R8: the operator input must not be handed to a kernel that destroys
+    its input.  The one such kernel is FFTW's multi-dimensional
+    complex-to-real transform (third arm of the repository's own
+    ``_pyfftw_destroys_input``: backward and halfcomplex and ndim != 1)."""
+    from .c18 import _admissible
+    PYF = 'odl/trafos/backends/pyfftw_bindings.py'
+    d = ctx.func(PYF, '_pyfftw_destroys_input')
+    src = ast.unparse(d)
+    if not ('backward' in src and 'halfcomplex' in src and 'ndim' in src):
+        raise AnalysisError('anchor changed: _pyfftw_destroys_input no '
+                            'longer states the c2r condition')
+    n = 0
+    for cname in ('DiscreteFourierTransform',
+                  'DiscreteFourierTransformInverse', 'FourierTransform',
+                  'FourierTransformInverse'):
+        ci = model.get(cname)
+        dc, fn = model.lookup(ci, '_call_pyfftw')
+        if not isinstance(fn, ast.FunctionDef):
+            continue
+        xn = fn.args.args[1].arg
+        cons = '%s._call_pyfftw' % cname
+        calls = [c for c in ast.walk(fn) if isinstance(c, ast.Call)
+                 and ast.unparse(c.func) == 'pyfftw_call']
+        for c in calls:
+            n += 1
+            a0 = c.args[0] if c.args else None
+            raw = isinstance(a0, ast.Name) and a0.id == xn
+            # a copy taken on the halfcomplex path before the call?
+            copied = any(
+                isinstance(s_, ast.Assign) and ast.unparse(s_.targets[0])
+                == xn and ast.unparse(s_.value) in ('%s.copy()' % xn,
+                                                    'np.copy(%s)' % xn)
+                and s_.lineno < c.lineno for s_ in ast.walk(fn))
+            can_c2r = False
+            inverse = 'Inverse' in cname
+            for sign in ('-', '+'):
+                for hc in (True,):
+                    if not _admissible(model, cname, sign, hc):
+                        continue
+                    if (not inverse and sign == '+') or (inverse
+                                                         and sign == '-'):
+                        continue      # halfcomplex fixes the direction
+                    if sign == '+':
+                        can_c2r = True
+            if raw and can_c2r and not copied:
+                rep.violation(
+                    'R8', cons,
+                    'the operator input array `%s` itself is passed to '
+                    'pyfftw_call, and this class admits direction=backward '
+                    'with halfcomplex=True: FFTW\'s multi-dimensional c2r '
+                    'transform destroys its input (see '
+                    '_pyfftw_destroys_input), so x is modified by op(x)'
+                    % xn, dc.rel, c.lineno)
+            else:
+                rep.holds('R8', cons, 'input %s' % (
+                    'is a temporary' if not raw else
+                    'copied before a c2r transform' if copied else
+                    'never reaches a c2r transform'))
+    rep.floor('R8', 'pyfftw_call sites in transform classes', n, 4)
 
 
 def _tracked(fn):
